@@ -53,6 +53,33 @@ CLAIMED = {
         design_ref="DESIGN.md §6 C03",
         note="Trusted: Coq kernel + vm_compute; hand-written model tied by differential testing; Q models f32.",
         technique="Coq proof (structural factorisation of k_exp, ring on RNC sums) + model/impl correspondence + oracle search"),
+    "C05": dict(
+        text="Machine-checked theorems over the model of Components::normalize, for every component list and every "
+             "iteration order of system ids: normalisation keeps every declared consumption, production and output "
+             "component, the metadata and the demands (C05_keeps: the non-auxiliary components of the result are a "
+             "permutation of the declared ones plus completion productions of EAMBIENTE/TERMOSOLAR only); the completed "
+             "amount of a system is its use where it declares no production and max(0, use - declared) otherwise, step by "
+             "step (C05_completion_value); it depends only on that system's components (C05_no_pooling) and is empty for "
+             "systems without use; the final sort is a stable permutation ordered by id. Correspondence: model vs "
+             "implementation on un-normalised component sets (serde JSON), multiset equality per system plus order of "
+             "non-auxiliary components; the completion rule, 'nothing dropped' and idempotence (normalize twice) are "
+             "recomputed on implementation outputs.",
+        design_ref="DESIGN.md §6 C05",
+        note="Trusted: Coq kernel + vm_compute; model tied by differential testing. Partial: idempotence and the "
+             "text-level 'no line is dropped' are differential facts, not theorems.",
+        technique="Coq proof over normalize model (lists, permutations, stable sort) + model/impl correspondence + recomputation oracle"),
+    "C06": dict(
+        text="Machine-checked theorems over the model of assign_aux_nepb_to_epb_services: a single-service system gets "
+             "all its auxiliaries on that service with unchanged values; for a multi-service system the shares are "
+             "|q_s|/sum|q| (non-negative), and at every step with some output the reassigned auxiliaries add up to the "
+             "declared amount (C06_conserve); other systems' components are untouched (C06_others_untouched); a "
+             "multi-service system with auxiliaries and no output at all is rejected with WrongInput; AUX makes "
+             "ELECTRICIDAD a balanced carrier and counts as EPB electricity use. The zero-output-step loss is proved "
+             "to exist (C06_zero_output_refuted) and recorded as a known finding. Correspondence and oracle as for C05.",
+        design_ref="DESIGN.md §6 C06",
+        note="Trusted: Coq kernel + vm_compute; model tied by differential testing; three fix: commits in /repo "
+             "(ccf3680, 5ed34e0, 699eef2); one known finding (zero-output step).",
+        technique="Coq proof over aux-assignment model + refutation witness for the known finding + correspondence + conservation oracle"),
     "C12": dict(
         text="Machine-checked theorems for every component list: with both electricity sources declared, used_pv = "
              "f*min(pv,u), used_chp = f*min(chp, u-min(pv,u)), cogenerated electricity is used only when the on-site "
